@@ -414,8 +414,8 @@ structure State where
   tracked : List Nat := []
   configured : Bool := false
   /-- `Index.tagValueCache`: (name, key, value) ↦ the series-id set computed by the first
-      `TagValueSeriesIDIterator` call; creations add to it, nothing ever removes from it;
-      lost on close. (Capacity 100, never reached by the 8 tuples of the generated cases.) -/
+      `TagValueSeriesIDIterator` call; creations add to it, `DropSeries` removes from it
+      (since fix C42-tsi1-tagvalue-cache-stale-after-delete), `DropMeasurement` does not; lost on close. (Capacity 100, never reached by the 8 tuples of the generated cases.) -/
   cache : List ((String × String × String) × List Nat) := []
 deriving Repr
 
@@ -437,13 +437,21 @@ def Partition.append (sf : SFile) (p : Partition) (es : List Entry) : Partition 
 def markOpStart (parts : List Partition) : List Partition :=
   parts.map (fun p => { p with opStart := (p.files.head?.map (·.entries.length)).getD 0 })
 
-/-- `Index.DropSeries(id, key, cascade=false)` → `Partition.DropSeries`. -/
+/-- `Index.DropSeries`, cache part (after fix C42-tsi1-tagvalue-cache-stale-after-delete: done
+    whatever `cascade` is): the id is removed from the cached set of each of its tag pairs. -/
+def cacheDel (c : List ((String × String × String) × List Nat)) (name : String) (tags : Tags) (id : Nat) :
+    List ((String × String × String) × List Nat) :=
+  c.map (fun e =>
+    if e.1.1 = name ∧ tags.any (fun kv => kv.1 = e.1.2.1 ∧ kv.2 = e.1.2.2) then (e.1, sdel e.2 id) else e)
+
+/-- `Index.DropSeries(id, key, cascade=false)` → `Partition.DropSeries`, then the cache update. -/
 def dropSeriesIndex (st : State) (s : SeriesInfo) : State :=
   { st with
     parts := modifyAt st.parts s.part (fun p =>
       let p' := p.append st.sf [Entry.delSeries s.id]
       { p' with sset := sdel p'.sset s.id }),
-    tracked := sdel st.tracked s.id }
+    tracked := sdel st.tracked s.id,
+    cache := cacheDel st.cache s.name s.tags s.id }
 
 /-- `Index.DropMeasurementIfSeriesNotExist(name)`. -/
 def dropMeasurementIfNoSeries (st : State) (name : String) : State :=
